@@ -269,7 +269,11 @@ fn judge(spec: &DistSpec, seed: u64, r: &ExactResult) -> Vec<Violation> {
                 r.bound,
                 r.sup_xf
             ),
-            sig: sig_for(spec, "law(exact-kolmogorov)", String::new()),
+            sig: {
+                let mut sg = sig_for(spec, "law(exact-kolmogorov)", String::new());
+                sg.insert("excess".into(), if r.d <= 1.5 * r.bound { "le1.5x".into() } else { "gt1.5x".into() });
+                sg
+            },
             case: json!({"kind": "exact32", "spec": spec, "seed": seed}),
         });
     }
